@@ -258,7 +258,7 @@ fn session_scn(sess: Sess, full: bool, pairs: bool) -> ChatScn {
     if actor_registered {
         parts.insert(0, part(0, "me", "myself", "au"));
     }
-    let mut s = ChatScn::new(&format!("c05-{:?}{}", sess, if pairs { "-pairs" } else { "" }), cfg, parts, if actor_registered { 0 } else { 0 });
+    let mut s = ChatScn::new(&format!("c05-{:?}{}", sess, if pairs { if full { "-pairs" } else { "-minipairs" } } else { "" }), cfg, parts, 0);
     s.slots = 4;
     s.prelude.push((2, "JOIN #z".into()));
     s.prelude.push((3, "JOIN #z".into()));
@@ -284,6 +284,8 @@ fn session_scn(sess: Sess, full: bool, pairs: bool) -> ChatScn {
             s.prelude.push((1, "JOIN #c".into()));
             if sess == Sess::ServerOper {
                 s.prelude.push((0, "OPER op oppw".into()));
+                s.prelude.push((0, "MODE me +w".into()));
+                s.prelude.push((1, "MODE bob +w".into()));
             }
             if sess == Sess::PeersLeft {
                 s.prelude.push((1, "PART #c".into()));
@@ -292,7 +294,15 @@ fn session_scn(sess: Sess, full: bool, pairs: bool) -> ChatScn {
     }
     s.prelude.push((2, "JOIN #c".into()));
     let lines = grammar(full);
-    let core: Vec<String> = if pairs { core_lines() } else { vec![] };
+    let core: Vec<String> = if pairs {
+        if full {
+            core_lines()
+        } else {
+            mini_core()
+        }
+    } else {
+        vec![]
+    };
     let raws = raw_payloads();
     s.extra_actions = Some(Box::new(move |_scn, v| {
         let mut acts = vec![];
@@ -321,7 +331,8 @@ fn session_scn(sess: Sess, full: bool, pairs: bool) -> ChatScn {
                 acts.push(Act::EofPartial(0, "PRIVMSG bob :unterminated".into()));
                 acts.push(Act::Eof(0));
             }
-        } else if pairs && v.depth == base + 1 {
+        } else if pairs && v.depth > base {
+            // further levels of the pairs/triples search (the depth bound ends it)
             for l in &core {
                 acts.push(Act::Send(0, l.clone()));
             }
@@ -347,6 +358,17 @@ fn core_lines() -> Vec<String> {
         "PRIVMSG #c :x", "PRIVMSG @#c :x", "PRIVMSG @+#c :x", "PRIVMSG bob,#c,me :x", "NOTICE #c :x", "WHO #c", "WHO *", "WHO me*", "WHOIS me", "WHOIS myself,bob", "WHOWAS me", "NAMES", "NAMES #c",
         "LIST", "LUSERS", "WALLOPS :w", "KILL bob :x", "KILL me :x", "KILL ghost :x", "ISON me bob", "USERHOST me myself", "STATS u", "PING x", "PONG x", "CAP REQ :multi-prefix", "CAP END",
         "PASS x", "USER u 0 * :r", "QUIT", "DIE", "SQUIT irc.irc :x",
+    ]
+    .iter()
+    .map(|s| s.to_string())
+    .collect()
+}
+
+/// Quick tier: ordered pairs over the lines that re-key or remove state.
+fn mini_core() -> Vec<String> {
+    [
+        "NICK myself", "NICK me", "MODE me +w", "MODE me -w", "MODE me +i", "WALLOPS :w", "JOIN #n", "PART #c", "KICK #c bob", "KICK #c me", "KICK #c bob,yan,me", "MODE #c +o bob", "MODE #c -o me", "MODE #c +v yan",
+        "PRIVMSG @+#c :x", "PRIVMSG +#c :x", "WHO *", "WHOIS myself,bob", "NAMES", "LUSERS", "KILL bob :x", "MODE #c +b me", "INVITE zed #c", "TOPIC #c :t", "QUIT",
     ]
     .iter()
     .map(|s| s.to_string())
@@ -515,7 +537,13 @@ pub fn plan(quick: bool) -> Plan {
     }
     if !quick {
         for sess in [Sess::Founder, Sess::ServerOper, Sess::Plain, Sess::HalfOp] {
-            parts.push(Part::Bfs(Box::new(session_scn(sess, false, true)), lim(2, 5_000_000, 900.0)));
+            parts.push(Part::Bfs(Box::new(session_scn(sess, true, true)), lim(2, 5_000_000, 900.0)));
+        }
+        // triples over the mini-core for the operator session
+        parts.push(Part::Bfs(Box::new(session_scn(Sess::ServerOper, false, true)), lim(3, 5_000_000, 900.0)));
+    } else {
+        for sess in [Sess::Founder, Sess::ServerOper] {
+            parts.push(Part::Bfs(Box::new(session_scn(sess, false, true)), lim(2, 5_000_000, 30.0)));
         }
     }
     Plan {
